@@ -7,12 +7,16 @@ use biodivine_lib_param_bn::BooleanNetwork;
 use biodivine_lib_param_bn::biodivine_std::traits::Set;
 use biodivine_lib_param_bn::symbolic_async_graph::{GraphColoredVertices, SymbolicAsyncGraph};
 
+/// `synthetic_62bits` is not a repository model: 6 variables with implicit functions of 3, 4 and 5 regulators
+/// (56 parameter bits), written for this harness so that sets with more than 2^53 elements are cheap to handle.
 /// Bundled models that load and evaluate within the child-process budget (120 s, 6 GB). The other
 /// bundled large coloured models (tacas1, tacas4, tacas5, cav2..cav6) either cannot be loaded with the
 /// pinned lib-param-bn, exhaust the memory budget while the graph is built, or do not finish a single
 /// operator in time; they are not part of the workload (see DESIGN.md §10).
-pub const ALL_MODELS: [&str; 9] = [
+pub const ALL_MODELS: [&str; 11] = [
     "myeloid",
+    "synthetic_62bits",
+    "cell_division_65536c",
     "110_9v_parametrized",
     "110_9v_concrete",
     "model-010-13var-2in",
